@@ -38,6 +38,8 @@ def cases(tier, seed):
              "two": bool(i % 4 == 3), "shape": [int(rng.integers(4, 9)), int(rng.integers(4, 9))], "seed": [seed, "post", i]}
         if c["vkind"] == "constraint":
             c["two"] = True
+        # a fixed far-away sphere listed BETWEEN the two fitted ones: the constrained pair is then not adjacent in the list
+        c["mid"] = bool(c["two"] and ((i // 8) % 2 or (c["vkind"] == "constraint" and i % 2)))
         if c["noise_src"] == "channel_data":
             c["optics_src"] = "data"; c["data_form"] = "image"
         out.append(c)
@@ -91,7 +93,10 @@ def run_case(case):
     if case["two"]:
         pri["r2"] = Uniform(0.2 + j(), 0.6 + j())
         pri["x2"] = Uniform(1.0 + j(), 3.0 + j())
-        scat = Spheres([s1, Sphere(n=1.6 * nmed / 1.33, r=pri["r2"], center=[pri["x2"], 0.7, 6.0])], warn=False)
+        members = [s1, Sphere(n=1.6 * nmed / 1.33, r=pri["r2"], center=[pri["x2"], 0.7, 6.0])]
+        if case.get("mid"):
+            members.insert(1, Sphere(n=1.55 * nmed / 1.33, r=0.3, center=[8.0, 0.7, 6.0]))
+        scat = Spheres(members, warn=False)
     else:
         scat = s1
     kw = {}
@@ -141,11 +146,12 @@ def run_case(case):
         vals[rn] = -abs(vals[rn]) - 0.01
     elif vk == "constraint":
         # second sphere pushed into the first: overlap far beyond 10 percent of the smaller diameter
-        xn = [nm for nm in names if nm.endswith("center.0")]
-        vals["1:center.0" if "1:center.0" in names else xn[-1]] = 1.0
+        x2name = [nm for nm, q in zip(names, plist) if type(q) is type(pri["x2"]) and q.renamed(None) == pri["x2"].renamed(None)][0]
+        # both x values stay INSIDE their priors' supports, so that only the constraint can exclude the point
+        vals[x2name] = pri["x2"].lower_bound + 0.05
         for nm in names:
-            if nm.endswith("center.0") and not nm.startswith("1:"):
-                vals[nm] = 0.9
+            if nm.endswith("center.0") and nm != x2name:
+                vals[nm] = pri["x"].upper_bound - 0.02
             if nm.endswith("center.1"):
                 vals[nm] = 0.7
             if nm.endswith("center.2"):
@@ -205,8 +211,11 @@ def run_case(case):
     if invalid:
         lp_exp = -np.inf
     if case["two"] and not invalid:
-        S2 = Spheres([e1, e2], warn=False)
-        if S2.largest_overlap() > 0.1 * 2 * min(e1.r, e2.r):
+        # overlap constraint recomputed here from centres and radii (every pair, not only list neighbours)
+        mem = [(e1.r, e1.center), (e2.r, e2.center)] + ([(0.3, (8.0, 0.7, 6.0))] if case.get("mid") else [])
+        worst = max(mem[a][0] + mem[b][0] - float(np.linalg.norm(np.asarray(mem[a][1], float) - np.asarray(mem[b][1], float)))
+                    for a in range(len(mem)) for b in range(a + 1, len(mem)))
+        if max(worst, 0.0) > 0.1 * 2 * min(m[0] for m in mem):
             lp_exp = -np.inf
     flags, resid = {}, {}
     lp = model.lnprior(vec)
@@ -261,7 +270,12 @@ def run_case(case):
             if pixels:
                 np.random.seed(npseed)
                 d_eval = make_subset_data(data, pixels=pixels)
-            es = Spheres([e1, e2], warn=False) if case["two"] else e1
+            es = e1
+            if case["two"]:
+                mm = [e1, e2]
+                if case.get("mid"):
+                    mm.insert(1, Sphere(n=1.55 * nmed / 1.33, r=0.3, center=(8.0, 0.7, 6.0)))
+                es = Spheres(mm, warn=False)
             if chan:
                 holo = calc_holo(d_eval, es, theory=Mie(), scaling=alpha_v)
                 sigma = d_eval.attrs["noise_sd"]
@@ -273,6 +287,14 @@ def run_case(case):
                 r = (holo.values - d_eval.values) / sig
                 N = d_eval.size
                 ll_exp = -N / 2 * math.log(2 * math.pi) - N * math.log(sig) - 0.5 * float((r ** 2).sum())
+            if pixels:
+                # the k-pixel subset is k DISTINCT pixels of the image; with k = all pixels it is the full-image posterior
+                pos = set(zip(np.asarray(d_eval.x.values).ravel().tolist(), np.asarray(d_eval.y.values).ravel().tolist()))
+                flags["subset_pixels_distinct"] = bool(len(pos) == pixels)
+                np.random.seed(npseed + 1)
+                p_all = model.lnposterior(vec, data, int(data.size))
+                p_full = model.lnposterior(vec, data)
+                resid["pixels_all_equals_full"] = fnum(abs(p_all - p_full) / max(1.0, abs(p_full)))
             ll = model.lnlike(vec, d_eval)
             resid["lnlike"] = fnum(abs(ll - ll_exp) / max(1.0, abs(ll_exp)))
             resid["lnposterior_is_sum"] = fnum(abs(post - (lp_exp + ll_exp)) / max(1.0, abs(lp_exp + ll_exp)))
@@ -294,12 +316,12 @@ def run_case(case):
 
 # ------------------------------------------------------------------ oracle
 
-TOL = {"lnprior": 1e-12, "lnlike": 1e-10, "lnposterior_is_sum": 1e-10, "forward_equals_calc_holo": 1e-12}
+TOL = {"pixels_all_equals_full": 1e-11, "lnprior": 1e-12, "lnlike": 1e-10, "lnposterior_is_sum": 1e-10, "forward_equals_calc_holo": 1e-12}
 
 
 def judge(case, obs):
     out = []
-    desc = {k: case[k] for k in ("model", "optics_src", "noise_src", "vkind", "data_form", "two")}
+    desc = {k: case.get(k) for k in ("model", "optics_src", "noise_src", "vkind", "data_form", "two", "mid")}
     for k, v in obs["resid"].items():
         if not v <= TOL[k]:
             out.append({"mech": "post.%s" % k, "detail": "%s=%.3e > %.0e; %s" % (k, v, TOL[k], desc)})
